@@ -120,6 +120,25 @@ def fexp_ok_py(x):
 F10_CLASS = 'flatten() after apply_modifiers() of a repeated block (count >= 2) that contains a sub-circuit'
 
 
+def f10_symptom(x):
+    """what F10 does to a flattened circuit: RecursionError, or the right operations (same multiset, no sub-circuit left) in a changed
+    order / schedule or changing again on a second flatten.  A lost or extra operation, or a remaining sub-circuit, is not F10."""
+    if x is None:
+        return False
+    if x.get('recursion_error'):
+        return True
+    return _keys(x['before']) == _keys(x['ops']) and x['n_comps'] == 0
+
+
+def f10_symptom_lib(o):
+    u, f = o.get('unrolled') or {}, o.get('flat') or {}
+    if f.get('recursion_error'):
+        return True
+    if 'ops' not in u or 'ops' not in f:
+        return False
+    return _keys(u['ops']) == _keys(f['ops']) and f.get('n_comps', 0) == 0
+
+
 def known_class(c, o):
     """F10: after unrolling, the chained copies carry multi-links whose reference group contains a sub-circuit; flatten()
     re-inserts only the leaf operations, the links keep consulting the vanished nested graphs: RecursionError (cyclic
@@ -129,8 +148,9 @@ def known_class(c, o):
     if c.get('k'):
         # library circuits: the same class, read off the structure the constructor really built (a repeated block holding a
         # sub-circuit: the simplified repetition-code constructor with >= 2 cycles)
-        return F10_CLASS if c['k'] == 'simplified' and struct_block_with_sub_repeated(o.get('structure', [])) else None
-    if block_with_sub_repeated(c['prog']) and fexp_ok_py(o.get('flat_plain')) and not fexp_ok_py(o.get('flat_unrolled')):
+        return F10_CLASS if (c['k'] == 'simplified' and struct_block_with_sub_repeated(o.get('structure', [])) and f10_symptom_lib(o)) else None
+    if (block_with_sub_repeated(c['prog']) and fexp_ok_py(o.get('flat_plain')) and not fexp_ok_py(o.get('flat_unrolled'))
+            and f10_symptom(o.get('flat_unrolled'))):
         return F10_CLASS
     return None
 
